@@ -117,7 +117,7 @@ func (s *SuffrageVoting) Find(
 			if !suf.Exists(fact.Node()) {
 				expires = append(expires, fact)
 
-				return false, nil
+				return true, nil
 			}
 
 			collected = append(collected, op)
